@@ -3,7 +3,7 @@
 // real answers: SIZE = |BODY[]|; HEADER ++ TEXT = BODY[] (and both equal the Lean split of BODY[]); every leaf at path p of
 // BODYSTRUCTURE is returned by BODY[p] with the announced media type, encoding and size and with the submitted content; an
 // absent path yields no data exactly when the Lean path mapping says so; ENVELOPE fields equal the header fields; partial
-// fetches are the Lean slice.
+// fetches are the Lean slice. A second stream (addr.go) generates the address fields and judges the ENVELOPE address lists.
 package main
 
 import (
@@ -66,6 +66,7 @@ func main() {
 		}
 	}
 	c.Cmd("SELECT INBOX")
+	twins := mimegen.NewTwins(msgs)
 	var ps []*probe
 	ask := func(p *probe) {
 		r := c.Cmd(p.cmd)
@@ -197,6 +198,12 @@ func main() {
 			enc := strings.ToLower(node.L[5].Str())
 			size := node.L[6].Num
 			got := val.Str()
+			if twins.CrossEncoded(leaf) && (size != len(got) || !same(decode(got, enc), string(leaf.Content))) {
+				// class predicate of finding C14-F3 (= C02-F1 / C15-F1): the shared blob store already held this content under
+				// another transfer encoding and hands out the first writer's text
+				rep.Finding("C14-F3", fmt.Sprintf("cross-encoding de-duplication: message %s part %s (announced encoding %q, %d octets): BODY[%s] returns %d octets that are another part's text", p.tok, p.path, enc, size, p.path, len(got)), []string{"msg " + hx.H(p.text), "cmd " + hx.H(p.cmd)})
+				continue
+			}
 			if size != len(got) {
 				if strings.HasSuffix(got, "\r\n") && size == len(got)-2 {
 					// class predicate of finding C14-F1: the leaf's stored content ends with CRLF
@@ -235,6 +242,14 @@ func main() {
 	if len(ps) > 1 {
 		rep.Sample(ps[0].cmd)
 		rep.Sample(ps[1].cmd)
+	}
+	// ---- ENVELOPE address lists over generated address fields ----
+	if o.Replay == "" {
+		ne := 150
+		if o.Thorough {
+			ne = 2500
+		}
+		envelopeStream(o, rep, w, rng.Fork(), ne)
 	}
 	rep.Finish()
 }
